@@ -21,7 +21,7 @@ func (tr *fnTrans) setVal(v ssa.Value, s *Sort, body string) Term {
 func (tr *fnTrans) constVal(v ssa.Value, s *Sort, body string) Term {
 	name := tr.vname(v)
 	tr.declare(name, s)
-	tr.items = append(tr.items, item{fmt.Sprintf("(assert (= %s %s))", name, body), false})
+	tr.items = append(tr.items, item{text: fmt.Sprintf("(assert (= %s %s))", name, body), isHyp: false})
 	t := T(name, s)
 	tr.vals[v] = t
 	return t
